@@ -444,6 +444,25 @@ def c09g_order(ctx):
                 ctx.fail(o, t, "get samples the staging log after it opened the store scan: an operation committed and flushed in between is missing from both")
 
 
+def c09h(ctx):
+    """The in-memory engine's key-of-set map has no batch and no store behind it: an insert that returns without having
+    put the element into the set has lost it for good (a missing backward edge: the caller is never marked dirty)."""
+    prog = ctx.prog
+    o = ctx.ob("C09.h", "in-memory/insert-reaches-the-set-on-every-path", "K2", "InMemoryKeyOfSetMap::insert calls insert_element on every path to its return")
+    b = ctx.touch(prog.coroutine_of("<InMemoryKeyOfSetMap as KeyOfSetMap>::insert"))
+    ins = b.calls_to(r"ConcurrentSet::insert_element$")
+    o.sites = len(ins)
+    if not ins:
+        ctx.fail(o, Site(b, 0, 0), "InMemoryKeyOfSetMap::insert never inserts the element")
+    else:
+        bad = b.must_pass([0], [s_.bb for s_ in ins])
+        if bad:
+            ctx.fail(o, Site(b, bad[0], 0), "InMemoryKeyOfSetMap::insert can return without having inserted the element into the set")
+        for s_ in ins:
+            if not any(x.kind == "param" for x in df.origins_deep(prog, b, s_.node["args"][1])):
+                ctx.fail(o, s_, "what is inserted is not the element that was passed in")
+
+
 def c09g_staging(ctx):
     prog = ctx.prog
     # ---- a staging snapshot first applies the deferred messages
@@ -497,6 +516,7 @@ def run(ctx):
     ctx.run_clause("C09.g", c09g_batch)
     ctx.run_clause("C09.g", c09g_staging)
     ctx.run_clause("C09.g", c09g_order)
+    ctx.run_clause("C09.h", c09h)
     ctx.run_clause("C09.a", c09a)
     ctx.run_clause("C09.b", c09b)
     ctx.run_clause("C09.c", c09c)
